@@ -1,120 +1,277 @@
 """gen_wasipath — regenerate lean/W2c2Verif/Gen/WasiPath.lean from /repo/wasi/{wasi.c,wasi.h}.
 
-Extracted by parsing the C source (nothing hard-coded; a construct that is no longer found
-raises ExtractFail = broken tie):
-  * resolvePath: the three `MUST (...)` guards as executable Lean predicates over
-    (pathLength, totalLength, PATH_MAX), the characters compared/inserted, the fallback
-    `#define PATH_MAX`;
-  * fd_readdir: WASI_DIRENT_SIZE, the header stores `iNN_store(memory, resultPointer + K, v)`
-    (store width, offset, value variable), WASI_DIRCOOKIE_START, the cookie test that guards
-    `seekdir`, the "does not fit" comparison, WASI_FILE_TYPE_* values and the order of the
-    S_IS* tests of wasiFileTypeFromMode;
-  * wasiErrno: the `case E*: return WASI_ERRNO_*` table with the numeric WASI values, default;
-  * clocks: WASI_CLOCK_* -> CLOCK_* table of wasiClockTimeGet (POSIX-timers branch), its
-    default errno, NSEC_PER_SEC;
-  * random_get: the condition under which the getentropy result is treated as an error;
-  * thread-spawn: initial value of nextThreadID, the atomic increment, the export name, the
-    value returned when the export is missing;
-  * args/environ: the `strlen(..) + 1` accounting and the pointer stride.
+SEMANTIC extraction (tools/extract/wasinorm.py): the source is preprocessed for this platform's configuration
+(`gcc -E -fdirectives-only`: conditionals resolved, macros kept), the functions are parsed and brought into a
+NORMAL FORM that identifies behaviour-preserving rewrites (local names, inlined static helpers, `?:` vs if/else,
+for vs while, `i++` vs `i += 1`, switch vs if-chain, negated conditions with swapped branches, `!x` vs `x == 0` vs
+`x == NULL`, literals by value, resolved `#define`/`static const`/constant locals, value-preserving casts, braces),
+and the facts are read off by matching TEMPLATES written as C with metavariables (`$x`) against the normal form.
+A function whose normal form matches none of the known templates raises ExtractFail (= broken tie): the extractor
+never guesses.
+
+Extracted facts:
+  * resolvePath: the three length guards as Lean predicates, presence/placement of the NUL guard, the characters
+    compared/inserted, the copies; the fallback `#define PATH_MAX`;
+  * fd_readdir: dirent size, header stores (offset, width), cookie test guarding `seekdir`, `rewinddir` on its
+    else branch, `errno = 0` before `readdir`, the "does not fit" test, the name clamp, the loop condition;
+    wasiFileTypeFromMode tests; * wasiErrno table; * the host call of each path call, the symlink target guard,
+    every guest-memory store of path_readlink, stat vs lstat in path_filestat_get;
+  * clocks: WASI clock id → host clock of clock_time_get / clock_res_get (whole dispatch incl. any dependence on
+    `precision`), convertTimespec / convertTimeval arithmetic, and the same for the fallback-timer configuration
+    (-DWASI_FALLBACK_TIMERS_ENABLED=1: gettimeofday / getrusage);
+  * random_get: chunked / single getentropy shape; * thread-spawn: counter, atomic increment, export comparison,
+    event order, missing-export result; * args/environ: loop bounds, `strlen + 1` accounting, pointer stride.
 """
 import os
 import re
+
 from cfront import ExtractFail, lean_str
+import wasinorm as cn
+from wasinorm import show
 
 GEN_NAME = "WasiPath"
 
 
-def strip_comments(text):
-    return re.sub(r"/\*.*?\*/", lambda m: "\n" * m.group().count("\n"), text, flags=re.S)
+# ------------------------------------------------------------------------------------------ helpers
+
+def variants(template):
+    """`/*?name*/ … /*?end*/` marks an optional fragment; yields (flags, text) for every combination (fragments of
+    the same name are switched together)"""
+    names = sorted(set(re.findall(r"/\*\?(\w+)\*/", template)) - {"end"})
+    for mask in range(2 ** len(names)):
+        flags = {n: bool(mask >> i & 1) for i, n in enumerate(names)}
+        text = template
+        for n in names:
+            pat = re.compile(r"/\*\?%s\*/(.*?)/\*\?end\*/" % n, re.S)
+            text = pat.sub((lambda m: m.group(1)) if flags[n] else "", text)
+        yield flags, text
 
 
-def line_of(text, pos):
-    return text.count("\n", 0, pos) + 1
+def nodecl(body):
+    return [s for s in body if s[0] != "decl"]
 
 
-def func_body(text, name, fname):
-    """Body (brace matched) of the definition of function `name`."""
-    for m in re.finditer(r"\b%s\s*\(" % re.escape(name), text):
-        i = m.end() - 1
-        d = 0
-        while i < len(text):
-            if text[i] == "(":
-                d += 1
-            elif text[i] == ")":
-                d -= 1
-                if d == 0:
-                    break
-            i += 1
-        j = i + 1
-        while j < len(text) and text[j] in " \t\r\n":
-            j += 1
-        if j < len(text) and text[j] == "{":
-            d = 0
-            k = j
-            while k < len(text):
-                if text[k] == "{":
-                    d += 1
-                elif text[k] == "}":
-                    d -= 1
-                    if d == 0:
-                        return text[j + 1:k], line_of(text, j)
-                k += 1
-    raise ExtractFail(fname, f"function {name} not found")
+def match_whole(src, fname, template, what):
+    """the function's normal form must equal one variant of the template (metavariables aside)"""
+    body = nodecl(src.body(fname))
+    hits = []
+    for flags, text in variants(template):
+        env = cn.match_seq(src.pattern(text), body, {}, prefix=False)
+        if env is not None:
+            hits.append((flags, env))
+    if len(hits) != 1:
+        raise ExtractFail(src.where, f"{fname}: {what}: normal form matches {len(hits)} of the known shapes:\n" + src.text(fname)[:3500])
+    return hits[0]
 
 
-def defines(text):
-    d = {}
-    for m in re.finditer(r"^[ \t]*#[ \t]*define[ \t]+(\w+)[ \t]+(.+?)[ \t]*$", text, flags=re.M):
-        d.setdefault(m.group(1), m.group(2).strip())
-    return d
+def num(e, where, what):
+    if e[0] != "num":
+        raise ExtractFail(where, f"{what}: integer constant expected, found `{show(e)}`")
+    return e[1]
 
 
-def int_of(s, where):
-    s = s.strip()
-    m = re.fullmatch(r"(?:W2C2_LL\()?\(?(0[xX][0-9a-fA-F]+|\d+)[uUlL]*\)?\)?", s)
-    if not m:
-        raise ExtractFail(where, f"not an integer constant: {s!r}")
-    return int(m.group(1), 0)
+def ident(e, where, what):
+    if e[0] != "id":
+        raise ExtractFail(where, f"{what}: a variable expected, found `{show(e)}`")
+    return e[1]
 
 
-# ---- tiny expression translator for the guards:  sums of identifiers/ints compared once
-def guard_to_lean(expr, where, allowed):
-    m = re.fullmatch(r"\s*(.+?)\s*(<=|>=|<|>|==|!=)\s*(.+?)\s*", expr)
-    if not m:
-        raise ExtractFail(where, f"guard not of the form a <cmp> b: {expr!r}")
-
-    def side(s):
-        terms = [t.strip() for t in s.split("+")]
-        out = []
-        for t in terms:
-            if re.fullmatch(r"\d+", t):
-                out.append(t)
-            elif t in allowed:
-                out.append(t)
-            else:
-                raise ExtractFail(where, f"unexpected term {t!r} in guard {expr!r}")
-        return " + ".join(out)
-    op = {"==": "=", "!=": "≠", "<=": "≤", ">=": "≥"}.get(m.group(2), m.group(2))
-    return f"decide ({side(m.group(1))} {op} {side(m.group(3))})"
+def lean_nat(e, names, where):
+    """arithmetic over Nat: identifiers renamed by `names`"""
+    if e[0] == "num" and e[1] >= 0:
+        return str(e[1])
+    if e[0] == "id" and e[1] in names:
+        return names[e[1]]
+    if e[0] == "bin" and e[1] in ("+", "*"):
+        a, b = lean_nat(e[2], names, where), lean_nat(e[3], names, where)
+        return f"{a} {e[1]} {b}"
+    raise ExtractFail(where, f"expression outside the arithmetic the model knows: `{show(e)}`")
 
 
-def char_code(lit, where):
-    m = re.fullmatch(r"'(\\?.)'", lit)
-    if not m:
-        raise ExtractFail(where, f"not a char literal {lit!r}")
-    c = m.group(1)
-    if c.startswith("\\"):
-        return {"\\0": 0, "\\n": 10, "\\\\": 92, "\\'": 39}[c]
-    return ord(c)
+def lean_guard(failcond, names, where, norm):
+    """the Lean Bool for `MUST (g)` given the FAILURE condition `!g` of the normal form"""
+    g = norm.negate(failcond)
+    if not (g[0] == "bin" and g[1] in ("<", "<=", "==", "!=")):
+        raise ExtractFail(where, f"guard is not a comparison: `{show(g)}`")
+    op = {"<": "<", "<=": "≤", "==": "=", "!=": "≠"}[g[1]]
+    a, b = g[2], g[3]
+    if a[0] == "num" and g[1] in ("<", "<="):            # print `0 < x` as the source's `x > 0`
+        return f"decide ({lean_nat(b, names, where)} {'>' if g[1] == '<' else '≥'} {lean_nat(a, names, where)})", f"{show(b)} {'>' if g[1] == '<' else '>='} {show(a)}"
+    return f"decide ({lean_nat(a, names, where)} {op} {lean_nat(b, names, where)})", show(g)
+
+
+def all_stmts(body):
+    for s in body:
+        yield s
+        if s[0] == "if":
+            yield from all_stmts(s[2])
+            if s[3]:
+                yield from all_stmts(s[3])
+        elif s[0] == "while":
+            yield from all_stmts(s[2])
+        elif s[0] == "do":
+            yield from all_stmts(s[1])
+
+
+def all_exprs(tree):
+    if isinstance(tree, tuple):
+        if tree and tree[0] in ("call", "bin", "un", "asg", "cond", "cast", "idx", "mem", "post", "pre", "id", "num"):
+            yield tree
+        for x in tree:
+            if isinstance(x, (tuple, list)):
+                yield from all_exprs(x)
+    elif isinstance(tree, list):
+        for x in tree:
+            yield from all_exprs(x)
+
+
+def calls_of(body, fname):
+    return [e for e in all_exprs(list(body)) if e[0] == "call" and e[1] == ("id", fname)]
+
+
+def if_chain(stmts):
+    """[(cond, body)…], else-body of a normalised if / else-if chain"""
+    chain = []
+    cur = list(stmts)
+    while len(cur) >= 1 and cur[0][0] == "if":
+        s = cur[0]
+        if len(cur) > 1:
+            # `if (c) return x;  rest…`  ≡  `if (c) return x; else { rest… }`
+            if s[3] is None and s[2] and s[2][-1][0] == "return":
+                chain.append((s[1], list(s[2])))
+                cur = cur[1:]
+                continue
+            break
+        chain.append((s[1], list(s[2])))
+        cur = list(s[3]) if s[3] else []
+    return chain, cur
+
+
+# ------------------------------------------------------------------------------------------ templates
+
+RESOLVE = r"""
+    if ($C0) return false;
+    /*?nulA*/ MUST (memchr(path, '\0', pathLength) == NULL) /*?end*/
+    if (path[0] == $ABS) {
+        if ($C1) return false;
+        /*?nulB*/ MUST (memchr(path, '\0', pathLength) == NULL) /*?end*/
+        memcpy(result, path, pathLength);
+        result[pathLength] = $T1;
+    } else {
+        $tl = strlen(directory);
+        if ($C2) return false;
+        /*?nulB*/ MUST (memchr(path, '\0', pathLength) == NULL) /*?end*/
+        memcpy(result, directory, $tl);
+        if (directory[$tl - 1] != $SEPT) { result[$tl++] = $SEP; }
+        memcpy(result + $tl, path, pathLength);
+        $tl += pathLength;
+        result[$tl] = $T2;
+    }
+    return true;
+"""
+
+# from the positioning of the stream to the end of wasiFDReaddir (the descriptor prologue / lazy opendir before it
+# belongs to C13 and is only required to contain the cookie test and the opendir)
+READDIR_TAIL = r"""
+    if ($SEEKC) { seekdir(descriptor.dir, (long)cookie); } /*?rewind*/ else { rewinddir(descriptor.dir); } /*?end*/
+    i32_store($mem, bufferUsedPointer, $used);
+    while ($LOOPC) {
+        $tell = 0;
+        $rem = bufferLength - $used;
+        $rp = bufferPointer + $used;
+        /*?reset*/ errno = 0; /*?end*/
+        $entry = readdir(descriptor.dir);
+        if ($entry == NULL) {
+            if (errno != 0) { return wasiErrno(); }
+            break;
+        }
+        $tell = telldir(descriptor.dir);
+        if ($tell < 0) { return wasiErrno(); }
+        $next = $tell;
+        $ino = $entry->d_ino;
+        $name = $entry->d_name;
+        $nl = strlen($name);
+        $ft = wasiFileTypeFromMode(DTTOIF($entry->d_type));
+        if ($ft == $UNK) {
+            strcpy($np, descriptor.path);
+            strcat($np, PATH_SEPARATOR_STRING);
+            strcat($np, $name);
+            if (lstat($np, &$st)) { return wasiErrno(); }
+            $ft = wasiFileTypeFromMode($st.st_mode);
+        }
+        if ($FITC) { $used = bufferLength; break; }
+        memset($mem->data + $rp, 0, $DS);
+        $STORE1; $STORE2; $STORE3; $STORE4;
+        $used += $DS;
+        $rem = bufferLength - $used;
+        $rp = bufferPointer + $used;
+        $adj = $ADJ;
+        memcpy($mem->data + $rp, $name, $adj);
+        $used += $adj;
+    }
+    i32_store($mem, bufferUsedPointer, $used);
+    return WASI_ERRNO_SUCCESS;
+"""
+
+ARGS_SIZES = r"""
+    $mem = wasiMemory(instance);
+    $sz = 0;
+    $i = 0;
+    while ($LOOPC) { $sz += $ADD; $i += 1; }
+    i32_store($mem, argcPointer, wasi.argc);
+    i32_store($mem, argvBufSizePointer, $sz);
+    return WASI_ERRNO_SUCCESS;
+"""
+ENV_SIZES = r"""
+    $mem = wasiMemory(instance);
+    $i = 0;
+    $sz = 0;
+    while (wasi.envp[$i] != NULL) { $sz += $ADD; $i += 1; }
+    i32_store($mem, envcPointer, wasi.envc);
+    i32_store($mem, envpBufSizePointer, $sz);
+    return WASI_ERRNO_SUCCESS;
+"""
+VEC_GET = r"""
+    $mem = wasiMemory(instance);
+    $i = 0;
+    while ($LOOPC) {
+        $a = $VEC[$i];
+        $len = $LEN;
+        memcpy($mem->data + $BUF, $a, $len);
+        i32_store($mem, $PTR + $i * $STRIDE, $BUF);
+        $BUF += $len;
+        $i += 1;
+    }
+    return WASI_ERRNO_SUCCESS;
+"""
+
+RANDOM_CHUNKED = r"""
+    $off = 0;
+    $res = 0;
+    while ($res == 0 && $off < bufferLength) {
+        $rem = bufferLength - $off;
+        $chunk = $rem > $N ? $N : $rem;
+        $res = getentropy($bs + $off, $chunk);
+        $off += $chunk;
+    }
+    if ($res == 0) { return WASI_ERRNO_SUCCESS; }
+    if (errno != ENOSYS) { return wasiErrno(); }
+"""
+RANDOM_SINGLE = r"""
+    $res = getentropy($bs, bufferLength);
+    if ($res != 0 && $res != ENOSYS) { return wasiErrno(); }
+    if ($res == ENOSYS) { $ANY; }
+"""
 
 
 def generate(repo):
     cpath = os.path.join(repo, "wasi", "wasi.c")
     hpath = os.path.join(repo, "wasi", "wasi.h")
-    c = strip_comments(open(cpath, encoding="latin-1").read())
-    h = strip_comments(open(hpath, encoding="latin-1").read())
-    cdef = defines(c)
-    hdef = defines(h)
+    src = cn.Source(repo, os.path.join("wasi", "wasi.c"))
+    fb = cn.Source(repo, os.path.join("wasi", "wasi.c"), extra_defs=["-DWASI_FALLBACK_TIMERS_ENABLED=1"])
+    N = src.norm
+    raw_c = open(cpath, encoding="latin-1").read()
+    werr = {k[11:]: v for k, v in N.values.items() if k.startswith("WASI_ERRNO_")}
     out = []
     w = out.append
     w("-- GENERATED by tools/extract/gen_wasipath.py from /repo/wasi/{wasi.c,wasi.h} — do not edit.")
@@ -123,380 +280,548 @@ def generate(repo):
     w("")
 
     # ------------------------------------------------------------------ resolvePath
-    body, ln = func_body(c, "resolvePath", cpath)
-    where = f"{cpath}:{ln}"
-    musts = [re.sub(r"\s+", " ", m.strip()) for m in re.findall(r"MUST\s*\(([^;{}]*?)\)\s*\n", body)]
-    # optional guard against NUL bytes inside the guest path: MUST (memchr(path, '\0', pathLength) == NULL)
-    nul = [i for i, m in enumerate(musts) if re.fullmatch(r"memchr\s*\(\s*path\s*,\s*'\\0'\s*,\s*pathLength\s*\)\s*==\s*NULL", m)]
-    # accepted shapes: no NUL guard | one guard directly after `pathLength > 0` (before any length guard) |
-    # one guard in each branch directly after that branch's length guard
-    if nul == []:
-        rejects_nul, nul_after = False, False
-    elif nul == [1] and len(musts) == 4:
-        rejects_nul, nul_after = True, False
-    elif nul == [2, 4] and len(musts) == 5:
-        rejects_nul, nul_after = True, True
-        # each must sit between its branch's length guard and the first memcpy of the branch
-        flat_body = re.sub(r"\s+", " ", body)
-        if not re.search(r"MUST \(pathLength < PATH_MAX\) MUST \(memchr\(path, '\\0', pathLength\) == NULL\) memcpy\(result, path, pathLength\);", flat_body) or \
-           not re.search(r"MUST \(totalLength \+ pathLength \+ 1 < PATH_MAX\) MUST \(memchr\(path, '\\0', pathLength\) == NULL\) memcpy\(result, directory, totalLength\);", flat_body):
-            raise ExtractFail(where, f"resolvePath: per-branch NUL guards not directly after the length guards: {musts}")
-    else:
-        raise ExtractFail(where, f"resolvePath: NUL guard at unexpected position: {musts}")
-    musts = [m for i, m in enumerate(musts) if i not in nul]
-    if len(musts) != 3:
-        raise ExtractFail(where, f"expected 3 arithmetic MUST guards in resolvePath, found {musts}")
-    allowed = {"pathLength", "totalLength", "PATH_MAX"}
-    m = re.search(r"#ifndef PATH_MAX\s*\n\s*#define PATH_MAX (\d+)", c)
+    where = cpath + ":resolvePath"
+    if src.params("resolvePath") != ["directory", "path", "pathLength", "result"]:
+        raise ExtractFail(where, f"parameters changed: {src.params('resolvePath')}")
+    flags, env = match_whole(src, "resolvePath", RESOLVE, "guards / NUL guard / copies")
+    if flags["nulA"] and flags["nulB"]:
+        raise ExtractFail(where, "NUL guard both before and after the length guards")
+    tl = ident(env["tl"], where, "strlen(directory) result")
+    names = {"pathLength": "pathLength", tl: "totalLength", "PATH_MAX": "PATH_MAX"}
+    m = re.search(r"#ifndef PATH_MAX\s*\n\s*#define PATH_MAX (\d+)", raw_c)
     if not m:
         raise ExtractFail(cpath, "fallback #define PATH_MAX not found")
-    w(f"/-- `#ifndef PATH_MAX / #define PATH_MAX` fallback (Linux takes 4096 from <limits.h>; the model is parametric) -/")
+    w("/-- `#ifndef PATH_MAX / #define PATH_MAX` fallback (Linux takes 4096 from <limits.h>; the model is parametric) -/")
     w(f"def pathMaxFallback : Nat := {m.group(1)}")
     w("")
-    w("/-- resolvePath, 1st guard `MUST (%s)` -/" % musts[0].strip())
-    w("def guardNonEmpty (pathLength totalLength PATH_MAX : Nat) : Bool := " + guard_to_lean(musts[0], where, allowed))
-    w("/-- resolvePath, absolute branch `MUST (%s)` -/" % musts[1].strip())
-    w("def guardAbs (pathLength totalLength PATH_MAX : Nat) : Bool := " + guard_to_lean(musts[1], where, allowed))
-    w("/-- resolvePath, relative branch `MUST (%s)` -/" % musts[2].strip())
-    w("def guardRel (pathLength totalLength PATH_MAX : Nat) : Bool := " + guard_to_lean(musts[2], where, allowed))
-    m1 = re.search(r"if\s*\(\s*path\[0\]\s*==\s*('\\?.')\s*\)", body)
-    m2 = re.search(r"if\s*\(\s*directory\[totalLength - 1\]\s*!=\s*('\\?.')\s*\)\s*\{\s*result\[totalLength\+\+\]\s*=\s*('\\?.')\s*;", body)
-    m3 = re.findall(r"result\[(\w+)\]\s*=\s*('\\?.')\s*;", body)
-    if not (m1 and m2 and len(m3) == 2):
-        raise ExtractFail(where, "resolvePath: absolute test / separator insertion / terminators not recognised")
+    for nm, key, doc in (("guardNonEmpty", "C0", "1st guard"), ("guardAbs", "C1", "absolute branch"), ("guardRel", "C2", "relative branch")):
+        lean, ctext = lean_guard(env[key], names, where, N)
+        w(f"/-- resolvePath, {doc} `MUST ({ctext})` -/")
+        w(f"def {nm} (pathLength totalLength PATH_MAX : Nat) : Bool := {lean}")
     w("/-- is there a `MUST (memchr(path, '\\0', pathLength) == NULL)` directly after the first guard? -/")
-    w("def rejectsNul : Bool := " + ("true" if rejects_nul else "false"))
+    w("def rejectsNul : Bool := " + ("true" if (flags["nulA"] or flags["nulB"]) else "false"))
     w("/-- …or is that guard placed in each branch AFTER the branch's length guard (so that an over-long")
     w("    length is rejected before the path bytes are scanned)? -/")
-    w("def nulCheckAfterLength : Bool := " + ("true" if nul_after else "false"))
-    w(f"def absChar : UInt8 := {char_code(m1.group(1), where)}      -- path[0] == {m1.group(1)}")
-    w(f"def sepTestChar : UInt8 := {char_code(m2.group(1), where)}  -- directory[totalLength - 1] != {m2.group(1)}")
-    w(f"def sepChar : UInt8 := {char_code(m2.group(2), where)}      -- result[totalLength++] = {m2.group(2)}")
-    if [x[0] for x in m3] != ["pathLength", "totalLength"] or any(char_code(x[1], where) != 0 for x in m3):
-        raise ExtractFail(where, f"resolvePath: terminator writes changed: {m3}")
+    w("def nulCheckAfterLength : Bool := " + ("true" if flags["nulB"] else "false"))
+    w(f"def absChar : UInt8 := {num(env['ABS'], where, 'absolute test')}      -- path[0] == c")
+    w(f"def sepTestChar : UInt8 := {num(env['SEPT'], where, 'separator test')}  -- directory[totalLength - 1] != c")
+    w(f"def sepChar : UInt8 := {num(env['SEP'], where, 'separator')}      -- result[totalLength++] = c")
+    if num(env["T1"], where, "terminator") != 0 or num(env["T2"], where, "terminator") != 0:
+        raise ExtractFail(where, "terminator is not NUL")
     w("def terminator : UInt8 := 0")
-    memcpys = re.findall(r"memcpy\s*\(\s*([^;]*?)\)\s*;", body)
-    memcpys = [re.sub(r"\s+", " ", x) for x in memcpys]
-    w("/-- the memcpy calls of resolvePath in source order (dst, src, n) -/")
-    w("def resolvePathMemcpys : List String := [" + ", ".join(lean_str(x) for x in memcpys) + "]")
-    exp = ["result, path, pathLength", "result, directory, totalLength", "result + totalLength, path, pathLength"]
-    if memcpys != exp:
-        raise ExtractFail(where, f"resolvePath: memcpy calls changed: {memcpys} (model copies {exp})")
+    w("/-- the memcpy calls of resolvePath in source order (dst, src, n) — fixed by the matched template -/")
+    w('def resolvePathMemcpys : List String := ["result, path, pathLength", "result, directory, totalLength", "result + totalLength, path, pathLength"]')
     w("")
 
     # ------------------------------------------------------------------ readdir
-    if "WASI_DIRENT_SIZE" not in cdef:
-        raise ExtractFail(cpath, "WASI_DIRENT_SIZE not defined")
-    w(f"def direntSize : Nat := {int_of(cdef['WASI_DIRENT_SIZE'], cpath)}")
-    body, ln = func_body(c, "wasiFDReaddir", cpath)
-    where = f"{cpath}:{ln}"
-    stores = re.findall(r"\b(i64_store|i32_store8|i32_store16|i32_store)\s*\(\s*memory\s*,\s*resultPointer\s*(?:\+\s*(\d+))?\s*,\s*(\w+)\s*\)", body)
-    if not stores:
-        raise ExtractFail(where, "no dirent header stores found")
+    where = cpath + ":wasiFDReaddir"
+    fn = "wasiFDReaddir"
+    if src.params(fn) != ["instance", "wasiDirFD", "bufferPointer", "bufferLength", "cookie", "bufferUsedPointer"]:
+        raise ExtractFail(where, f"parameters changed: {src.params(fn)}")
+    body = nodecl(src.body(fn))
+    hits = []
+    for fl, text in variants(READDIR_TAIL):
+        pat = src.pattern(text)
+        for start in range(len(body)):
+            e = cn.match_seq(pat, body[start:], {}, prefix=False)
+            if e is not None:
+                hits.append((fl, e, start))
+    if len(hits) != 1:
+        raise ExtractFail(where, f"stream positioning / loop / dirent encoding: normal form matches {len(hits)} known shapes:\n" + src.text(fn)[:4000])
+    rflags, env, start = hits[0]
+    head = body[:start]
+    # the part before: lazy opendir with the cookie test (rest of it is C13's)
+    lazy = [s for s in head if s[0] == "if" and calls_of(s[2], "opendir")]
+    if len(lazy) != 1 or calls_of([s for s in head if s is not lazy[0]], "opendir"):
+        raise ExtractFail(where, "lazy `if (descriptor.dir == NULL) { … opendir … }` not recognised")
+    if show(lazy[0][1]) != "descriptor.dir == 0":
+        raise ExtractFail(where, f"lazy opendir condition: {show(lazy[0][1])}")
+    early = [s for s in lazy[0][2] if s[0] == "if" and "cookie" in cn.ids_of(s[1])]
+    if len(early) != 1 or not (early[0][2] and early[0][2][0][0] == "return"):
+        raise ExtractFail(where, "`if (cookie != WASI_DIRCOOKIE_START) return BADF` in the lazy opendir not recognised")
+    for bad in ("rewinddir", "seekdir", "readdir", "telldir", "closedir"):
+        if calls_of(head, bad):
+            raise ExtractFail(where, f"{bad}() before the stream positioning")
+    used = ident(env["used"], where, "bufferUsed")
+    rem, nl = ident(env["rem"], where, "bufferRemaining"), ident(env["nl"], where, "nameLength")
+    ds = num(env["DS"], where, "WASI_DIRENT_SIZE")
+    w(f"def direntSize : Nat := {ds}")
+    roles = {show(env["next"]): "next", show(env["ino"]): "inode", nl: "nameLength", show(env["ft"]): "fileType"}
     width = {"i64_store": 8, "i32_store": 4, "i32_store16": 2, "i32_store8": 1}
-    w("/-- dirent header stores in source order: (value variable, offset, width in bytes) -/")
-    w("def direntStores : List (String × Nat × Nat) := [" +
-      ", ".join(f"({lean_str(v)}, {int(o or 0)}, {width[f]})" for f, o, v in stores) + "]")
-    byname = {v: (int(o or 0), width[f]) for f, o, v in stores}
+    stores = []
+    for k in ("STORE1", "STORE2", "STORE3", "STORE4"):
+        st = env[k]
+        if not (st[0] == "expr" and st[1][0] == "call" and st[1][1][0] == "id" and st[1][1][1] in width and len(st[1][2]) == 3 and st[1][2][0] == env["mem"]):
+            raise ExtractFail(where, f"dirent header store not recognised: {cn.show_stmts([st])}")
+        addr, val = st[1][2][1], st[1][2][2]
+        if addr == env["rp"]:
+            off = 0
+        elif addr[0] == "bin" and addr[1] == "+" and addr[2] == env["rp"] and addr[3][0] == "num":
+            off = addr[3][1]
+        else:
+            raise ExtractFail(where, f"dirent store address `{show(addr)}`")
+        if show(val) not in roles:
+            raise ExtractFail(where, f"dirent store of `{show(val)}`: not one of next / inode / name length / file type")
+        stores.append((roles[show(val)], off, width[st[1][1][1]]))
+    w("/-- dirent header stores in source order: (value, offset, width in bytes) -/")
+    w("def direntStores : List (String × Nat × Nat) := [" + ", ".join(f"({lean_str(v)}, {o}, {wd})" for v, o, wd in stores) + "]")
+    byname = {v: (o, wd) for v, o, wd in stores}
     for v, nm in (("next", "Next"), ("inode", "Ino"), ("nameLength", "Namlen"), ("fileType", "Type")):
         if v not in byname:
             raise ExtractFail(where, f"dirent store of `{v}` not found (stores: {stores})")
         w(f"def dirent{nm}Off : Nat := {byname[v][0]}")
         w(f"def dirent{nm}Width : Nat := {byname[v][1]}")
-    if not re.search(r"memset\s*\(\s*memory->data \+ resultPointer\s*,\s*0\s*,\s*WASI_DIRENT_SIZE\s*\)", body):
-        raise ExtractFail(where, "memset(memory->data + resultPointer, 0, WASI_DIRENT_SIZE) not found")
-    if "WASI_DIRCOOKIE_START" not in hdef:
+    start_cookie = N.values.get("WASI_DIRCOOKIE_START")
+    if start_cookie is None:
         raise ExtractFail(hpath, "WASI_DIRCOOKIE_START not defined")
-    w(f"def dirCookieStart : Nat := {int_of(hdef['WASI_DIRCOOKIE_START'], hpath)}")
-    m = re.search(r"if\s*\(\s*cookie\s*(!=|==)\s*WASI_DIRCOOKIE_START\s*\)\s*\{\s*seekdir\s*\(\s*descriptor\.dir\s*,\s*\(long\)\s*cookie\s*\)\s*;\s*\}", body)
-    if not m:
-        raise ExtractFail(where, "`if (cookie != WASI_DIRCOOKIE_START) { seekdir(...) }` not found")
-    w(f"/-- seekdir is called iff `cookie {m.group(1)} WASI_DIRCOOKIE_START` -/")
-    w(f"def seekWhenCookie (cookie : Nat) : Bool := decide (cookie {'≠' if m.group(1) == '!=' else '='} dirCookieStart)")
-    has_rewind = re.search(r"seekdir\s*\(\s*descriptor\.dir\s*,\s*\(long\)\s*cookie\s*\)\s*;\s*\}\s*else\s*\{\s*rewinddir\s*\(\s*descriptor\.dir\s*\)\s*;\s*\}", body) is not None
-    if not has_rewind and re.search(r"rewinddir\s*\(", body):
-        raise ExtractFail(where, "fd_readdir calls rewinddir in a place the model does not know")
+    w(f"def dirCookieStart : Nat := {start_cookie}")
+    sc = env["SEEKC"]
+    if sc == ("id", "cookie") and start_cookie == 0:
+        seek_op = "≠"
+    elif sc[0] == "bin" and sc[1] in ("!=", "==") and sc[2] == ("id", "cookie") and sc[3] == ("num", start_cookie):
+        seek_op = "≠" if sc[1] == "!=" else "="
+    else:
+        raise ExtractFail(where, f"seekdir guard `{show(sc)}`")
+    if show(early[0][1]) != show(sc):
+        raise ExtractFail(where, f"cookie test of the lazy opendir `{show(early[0][1])}` differs from the seekdir guard `{show(sc)}`")
+    w(f"/-- seekdir is called iff `cookie {'!=' if seek_op == '≠' else '=='} WASI_DIRCOOKIE_START` -/")
+    w(f"def seekWhenCookie (cookie : Nat) : Bool := decide (cookie {seek_op} dirCookieStart)")
     w("/-- `else { rewinddir(descriptor.dir); }` on the seekdir test: cookie START rewinds an opened stream -/")
-    w("def readdirCallsRewind : Bool := " + ("true" if has_rewind else "false"))
-    flat_rd = re.sub(r"\s+", " ", re.sub(r"WASI_TRACE\(\(.*?\)\);", "", body, flags=re.S))
-    m_rd = re.search(r"(errno = 0; )?entry = readdir\(descriptor\.dir\); if \(entry == NULL\) \{ if \(errno != 0\) \{ return wasiErrno\(\); \} break; \}", flat_rd)
-    if not m_rd:
-        raise ExtractFail(where, "fd_readdir: `entry = readdir(..); if (entry == NULL) { if (errno != 0) return wasiErrno(); break; }` not recognised")
+    w("def readdirCallsRewind : Bool := " + ("true" if rflags["rewind"] else "false"))
     w("/-- is `errno = 0;` the statement directly before `entry = readdir(descriptor.dir);`?  (readdir reports")
     w("    end-of-directory by NULL with errno UNCHANGED; the loop tests `errno != 0` afterwards) -/")
-    w("def readdirResetsErrno : Bool := " + ("true" if m_rd.group(1) else "false"))
-    m = re.search(r"if\s*\(\s*bufferRemaining\s*(<|<=)\s*WASI_DIRENT_SIZE\s*\)", body)
-    if not m:
-        raise ExtractFail(where, "`if (bufferRemaining < WASI_DIRENT_SIZE)` not found")
-    w(f"/-- header does not fit iff `bufferRemaining {m.group(1)} WASI_DIRENT_SIZE` -/")
-    w(f"def headerDoesNotFit (bufferRemaining : Nat) : Bool := decide (bufferRemaining {'<' if m.group(1) == '<' else '≤'} direntSize)")
-    m = re.search(r"adjustedNameLength\s*=\s*nameLength\s*(>|>=)\s*bufferRemaining\s*\?\s*bufferRemaining\s*:\s*nameLength\s*;", body)
-    if not m:
-        raise ExtractFail(where, "adjustedNameLength computation not recognised")
+    w("def readdirResetsErrno : Bool := " + ("true" if rflags["reset"] else "false"))
+    fc = env["FITC"]
+    if not (fc[0] == "bin" and fc[1] in ("<", "<=") and fc[2] == env["rem"] and fc[3] == ("num", ds)):
+        raise ExtractFail(where, f"`if (bufferRemaining < WASI_DIRENT_SIZE)`: found `{show(fc)}`")
+    w(f"/-- header does not fit iff `bufferRemaining {fc[1]} WASI_DIRENT_SIZE` -/")
+    w(f"def headerDoesNotFit (bufferRemaining : Nat) : Bool := decide (bufferRemaining {'<' if fc[1] == '<' else '≤'} direntSize)")
+    adj = env["ADJ"]
+    # normal form of `nameLength > bufferRemaining ? bufferRemaining : nameLength`
+    if adj[0] == "cond" and adj[1][0] == "bin" and adj[1][1] in ("<", "<=") and adj[1][2] == env["rem"] and adj[1][3] == env["nl"] \
+            and adj[2] == env["rem"] and adj[3] == env["nl"]:
+        aop = ">" if adj[1][1] == "<" else "≥"
+    else:
+        raise ExtractFail(where, f"name clamp `{show(adj)}`")
     w("def adjustedNameLength (nameLength bufferRemaining : Nat) : Nat := "
-      f"if nameLength {m.group(1).replace('>=', '≥')} bufferRemaining then bufferRemaining else nameLength")
-    m = re.search(r"while\s*\(\s*bufferUsed\s*(<|<=)\s*bufferLength\s*\)", body)
-    if not m:
-        raise ExtractFail(where, "readdir loop condition not recognised")
-    w(f"def loopContinues (bufferUsed bufferLength : Nat) : Bool := decide (bufferUsed {m.group(1).replace('<=', '≤')} bufferLength)")
-    # file types
-    ft = {}
-    for k, v in hdef.items():
-        if k.startswith("WASI_FILE_TYPE_"):
-            ft[k] = int_of(v, hpath)
-    body2, ln2 = func_body(c, "wasiFileTypeFromMode", cpath)
-    tests = re.findall(r"if\s*\(\s*(S_IS\w+)\s*\(\s*mode\s*\)\s*\)\s*\{\s*return\s+(WASI_FILE_TYPE_\w+)\s*;", body2)
-    dm = re.search(r"return\s+(WASI_FILE_TYPE_\w+)\s*;\s*$", body2.strip())
-    if not tests or not dm:
-        raise ExtractFail(f"{cpath}:{ln2}", "wasiFileTypeFromMode not recognised")
+      f"if nameLength {aop} bufferRemaining then bufferRemaining else nameLength")
+    lc = env["LOOPC"]
+    if not (lc[0] == "bin" and lc[1] in ("<", "<=") and lc[2] == env["used"] and lc[3] == ("id", "bufferLength")):
+        raise ExtractFail(where, f"loop condition `{show(lc)}`")
+    w(f"def loopContinues (bufferUsed bufferLength : Nat) : Bool := decide (bufferUsed {lc[1].replace('<=', '≤')} bufferLength)")
+    unk = num(env["UNK"], where, "WASI_FILE_TYPE_UNKNOWN")
+    # wasiFileTypeFromMode: a chain of `if (S_ISxxx(mode)) return T;`
+    fbody = nodecl(src.body("wasiFileTypeFromMode"))
+    chain, rest = if_chain(fbody)
+    tests = []
+    for c, b in chain:
+        if not (c[0] == "call" and c[1][0] == "id" and c[1][1].startswith("S_IS") and c[2] == (("id", src.params("wasiFileTypeFromMode")[0]),)
+                and len(b) == 1 and b[0][0] == "return" and b[0][1][0] == "num"):
+            raise ExtractFail(cpath + ":wasiFileTypeFromMode", "test not of the form `if (S_ISxxx(mode)) return T;`:\n" + src.text("wasiFileTypeFromMode"))
+        tests.append((c[1][1], b[0][1][1]))
+    if not tests or len(rest) != 1 or rest[0][0] != "return" or rest[0][1][0] != "num":
+        raise ExtractFail(cpath + ":wasiFileTypeFromMode", "not recognised:\n" + src.text("wasiFileTypeFromMode"))
     w("/-- wasiFileTypeFromMode: S_IS* tests in source order with the WASI file type returned -/")
-    w("def fileTypeTests : List (String × Nat) := [" + ", ".join(f"({lean_str(t)}, {ft[r]})" for t, r in tests) + "]")
-    w(f"def fileTypeDefault : Nat := {ft[dm.group(1)]}")
-    w(f"def fileTypeUnknown : Nat := {ft['WASI_FILE_TYPE_UNKNOWN']}")
+    w("def fileTypeTests : List (String × Nat) := [" + ", ".join(f"({lean_str(t)}, {r})" for t, r in tests) + "]")
+    w(f"def fileTypeDefault : Nat := {rest[0][1][1]}")
+    w(f"def fileTypeUnknown : Nat := {unk}")
+    if N.values.get("WASI_FILE_TYPE_UNKNOWN") != unk:
+        raise ExtractFail(where, "the lstat fallback is not taken for WASI_FILE_TYPE_UNKNOWN")
     w("")
 
     # ------------------------------------------------------------------ errno table
-    body, ln = func_body(c, "wasiErrno", cpath)
-    where = f"{cpath}:{ln}"
-    werr = {k: int_of(v, hpath) for k, v in hdef.items() if k.startswith("WASI_ERRNO_")}
-    cases = re.findall(r"case\s+(E\w+)\s*:\s*return\s+(WASI_ERRNO_\w+)\s*;", body)
-    dflt = re.findall(r"default\s*:\s*(?:WASI_TRACE\s*\(\(.*?\)\)\s*;\s*)?return\s+(WASI_ERRNO_\w+)\s*;", body, flags=re.S)
-    if len(cases) < 10 or not dflt:
-        raise ExtractFail(where, "wasiErrno switch not recognised")
+    where = cpath + ":wasiErrno"
+    chain, rest = if_chain(nodecl(src.body("wasiErrno")))
+    cases = []
+    for c, b in chain:
+        conds = []
+
+        def disj(x):
+            if x[0] == "bin" and x[1] == "||":
+                disj(x[2])
+                disj(x[3])
+            else:
+                conds.append(x)
+        disj(c)
+        for x in conds:
+            if not (x[0] == "bin" and x[1] == "==" and x[2] == ("id", "errno") and x[3][0] == "id" and len(b) == 1 and b[0][0] == "return" and b[0][1][0] == "num"):
+                raise ExtractFail(where, f"case `{show(c)}` not of the form errno == E… → return WASI_ERRNO_…")
+            cases.append((x[3][1], b[0][1][1]))
+    if len(cases) < 10 or len(rest) != 1 or rest[0][0] != "return" or rest[0][1][0] != "num":
+        raise ExtractFail(where, "wasiErrno dispatch not recognised")
     w("/-- wasiErrno(): host errno name → WASI errno value (source order) -/")
     w("def errnoTable : List (String × Nat) := [")
-    w(",\n".join(f"  ({lean_str(e)}, {werr[x]})" for e, x in cases if e != "EMACOSERR"))
+    w(",\n".join(f"  ({lean_str(e)}, {v})" for e, v in cases))
     w("]")
-    w(f"def errnoDefault : Nat := {werr[dflt[-1]]}")
+    w(f"def errnoDefault : Nat := {rest[0][1][1]}")
     w("/-- all WASI errno names of wasi.h with their values -/")
-    w("def wasiErrnoValues : List (String × Nat) := [" + ", ".join(f"({lean_str(k[11:])}, {v})" for k, v in werr.items()) + "]")
+    w("def wasiErrnoValues : List (String × Nat) := [" + ", ".join(f"({lean_str(k)}, {v})" for k, v in werr.items()) + "]")
     for nm in ("SUCCESS", "BADF", "INVAL", "IO", "NOSYS"):
-        w(f"def errno{nm.capitalize()} : Nat := {werr['WASI_ERRNO_' + nm]}")
+        w(f"def errno{nm.capitalize()} : Nat := {werr[nm]}")
     w("")
 
     # ------------------------------------------------------------------ path calls: which host call each performs
     calls = []
-    for fn, host in (("wasiPathCreateDirectory", r"mkdir\s*\(\s*nativeResolvedPath\s*,\s*(0[0-7]+)\s*\)"),
-                     ("wasiPathRemoveDirectory", r"rmdir\s*\(\s*nativeResolvedPath\s*\)"),
-                     ("wasiPathUnlinkFile", r"unlink\s*\(\s*nativeResolvedPath\s*\)"),
-                     ("wasiPathRename", r"rename\s*\(\s*nativeOldResolvedPath\s*,\s*nativeNewResolvedPath\s*\)"),
-                     ("wasiPathSymlink", r"symlink\s*\(\s*nativeOldResolvedPath\s*,\s*nativeNewResolvedPath\s*\)"),
-                     ("wasiPathReadlink", r"readlink\s*\(\s*nativeResolvedPath\s*,\s*buffer\s*,\s*bufferLength\s*\)"),
-                     ("wasiPathFilestatGet", r"\bstat\s*\(\s*nativeResolvedPath\s*,\s*st\s*\)")):
-        body, ln = func_body(c, fn, cpath)
-        m = re.search(host, body)
-        if not m:
-            raise ExtractFail(f"{cpath}:{ln}", f"{fn}: host call not recognised")
-        n_res = len(re.findall(r"resolvePath\s*\(", body))
-        calls.append((fn, re.sub(r"\s+", " ", m.group(0)), n_res))
+    for fn, host, nargs in (("wasiPathCreateDirectory", "mkdir", 2), ("wasiPathRemoveDirectory", "rmdir", 1), ("wasiPathUnlinkFile", "unlink", 1),
+                            ("wasiPathRename", "rename", 2), ("wasiPathSymlink", "symlink", 2), ("wasiPathReadlink", "readlink", 3),
+                            ("wasiPathFilestatGet", None, 2)):
+        body = nodecl(src.body(fn))
+        where = f"{cpath}:{fn}"
+        host_names = ["stat", "lstat"] if host is None else [host]
+        found = [(h, c) for h in host_names for c in calls_of(body, h)]
+        # no other file-system call may be made
+        others = [h for h in ("mkdir", "rmdir", "unlink", "remove", "rename", "symlink", "readlink", "stat", "lstat", "link", "open", "creat", "chmod", "truncate")
+                  if h not in host_names and calls_of(body, h)]
+        if len(found) != 1 or others or len(found[0][1][2]) != nargs:
+            raise ExtractFail(where, f"host call not recognised (found {[f[0] for f in found]}, others {others}):\n" + src.text(fn)[:2500])
+        hname, call = found[0]
+        n_res = len(calls_of(body, "resolvePath"))
+        calls.append((fn, hname, n_res))
         if fn == "wasiPathCreateDirectory":
-            w(f"def mkdirMode : Nat := 0o{m.group(1)[1:]}")
+            w(f"def mkdirMode : Nat := 0o{num(call[2][1], where, 'mkdir mode'):o}")
+        if fn == "wasiPathFilestatGet":
+            w("/-- path_filestat_get examines the resolved path with `stat` (follows a symbolic link in the last")
+            w("    component) or `lstat` (reports the link itself) -/")
+            w(f"def filestatHostCall : String := {lean_str(hname)}")
+            w("/-- …and does the choice (or anything else in the function) depend on the `lookupFlags` argument? -/")
+            w("def filestatUsesLookupFlags : Bool := " + ("true" if src.uses(fn, src.params(fn)[2]) else "false"))
         if fn == "wasiPathSymlink":
-            m = re.search(r"if\s*\(\s*oldPathLength\s*(>=|>)\s*PATH_MAX\s*\)\s*\{[^}]*return\s+(WASI_ERRNO_\w+)", body)
-            if not m:
-                raise ExtractFail(f"{cpath}:{ln}", "path_symlink: oldPathLength guard not recognised")
-            w(f"/-- path_symlink rejects the link target iff `oldPathLength {m.group(1)} PATH_MAX` -/")
-            w(f"def symlinkTargetTooLong (oldPathLength PATH_MAX : Nat) : Bool := decide (oldPathLength {m.group(1).replace('>=', '≥')} PATH_MAX)")
-            w(f"def symlinkTargetErrno : Nat := {werr[m.group(2)]}")
-    body_rl, ln_rl = func_body(c, "wasiPathReadlink", cpath)
-    flat_rl = re.sub(r"\s+", " ", re.sub(r"WASI_TRACE\(\(.*?\)\);", "", body_rl, flags=re.S))
-    # every statement of wasiPathReadlink that writes into guest memory (besides the host readlink into `buffer`)
-    stores = re.findall(r"(buffer\[[^\]]*\] = [^;]*;|\*buffer = [^;]*;|\b(?:memcpy|memset|memmove|strcpy|strcat|sprintf)\s*\((?:buffer|memory->data)[^;]*;|\bi(?:32|64)_store(?:8|16|32)?\s*\(\s*memory[^;]*;)", flat_rl)
-    stores = [re.sub(r"\s+", " ", x).strip() for x in stores]
-    w("/-- wasiPathReadlink: all stores into guest memory besides `readlink(nativeResolvedPath, buffer, bufferLength)` -/")
-    w("def readlinkStores : List String := [" + ", ".join(lean_str(x) for x in stores) + "]")
-    extra = [x for x in stores if x != "i32_store(memory, lengthPointer, length);"]
-    if extra == []:
-        w("def readlinkTerminatesInGuest : Bool := false")
-    elif extra == ["buffer[length] = '\\0';"]:
-        w("/-- `buffer[length] = '\\0';` — one byte at `buffer + length`, also when `length = bufferLength` -/")
-        w("def readlinkTerminatesInGuest : Bool := true")
-    else:
-        raise ExtractFail(f"{cpath}:{ln_rl}", f"path_readlink writes guest memory in a way the model does not know: {extra}")
-    if "i32_store(memory, lengthPointer, length);" not in stores:
-        raise ExtractFail(f"{cpath}:{ln_rl}", "path_readlink: i32_store(memory, lengthPointer, length) not found")
-    w("/-- (function, host call text, number of resolvePath calls) -/")
+            env2 = src.need(fn, "if ($C) { return $E; } memcpy($dst, $mem->data + oldPathPointer, oldPathLength); $dst[oldPathLength] = $T;",
+                            "link-target length guard + verbatim copy")
+            g = N.negate(env2["C"])       # the accepting condition
+            c = env2["C"]
+            if not (c[0] == "bin" and c[1] in ("<", "<=") and c[2] == ("id", "PATH_MAX") and c[3] == ("id", "oldPathLength")):
+                raise ExtractFail(where, f"link-target guard `{show(c)}`")
+            op = "≥" if c[1] == "<=" else ">"
+            w(f"/-- path_symlink rejects the link target iff `oldPathLength {'>=' if op == '≥' else '>'} PATH_MAX` -/")
+            w(f"def symlinkTargetTooLong (oldPathLength PATH_MAX : Nat) : Bool := decide (oldPathLength {op} PATH_MAX)")
+            w(f"def symlinkTargetErrno : Nat := {num(env2['E'], where, 'errno')}")
+            if num(env2["T"], where, "terminator") != 0:
+                raise ExtractFail(where, "link target terminator")
+        if fn == "wasiPathReadlink":
+            env3 = src.need(fn, "$buf = (char*)$mem->data + bufferPointer;", "guest buffer pointer")
+            buf = ident(env3["buf"], where, "buffer")
+            env4 = src.need(fn, "$len = readlink($p, $buf2, bufferLength);", "readlink call")
+            if env4["buf2"] != ("id", buf):
+                raise ExtractFail(where, "readlink does not write to the guest buffer")
+            ln = env4["len"]
+            kinds = []
+            for s in all_stmts(body):
+                if s[0] != "expr":
+                    continue
+                e = s[1]
+                if e[0] == "call" and e[1][0] == "id" and re.fullmatch(r"i(32|64)_store(8|16|32)?", e[1][1]):
+                    if e[1][1] == "i32_store" and e[2][1] == ("id", "lengthPointer") and e[2][2] == ln:
+                        kinds.append("length")
+                    else:
+                        raise ExtractFail(where, f"unknown store `{show(e)}`")
+                elif e[0] == "call" and e[1][0] == "id" and e[1][1] in ("memcpy", "memset", "memmove", "strcpy", "strcat", "sprintf", "strncpy") \
+                        and (buf in cn.ids_of(e[2][0]) or "memory" in cn.ids_of(e[2][0])):
+                    raise ExtractFail(where, f"unknown write into guest memory `{show(e)}`")
+                elif e[0] == "asg" and e[2][0] in ("idx", "un") and buf in cn.ids_of(e[2]):
+                    if e[2] == ("idx", ("id", buf), ln) and e[3] == ("num", 0) and e[1] == "=":
+                        kinds.append("terminator")
+                    else:
+                        raise ExtractFail(where, f"unknown write into the guest buffer `{show(e)}`")
+            w("/-- wasiPathReadlink: all stores into guest memory besides `readlink(nativeResolvedPath, buffer, bufferLength)`:")
+            w("    \"length\" = `i32_store(memory, lengthPointer, length)`, \"terminator\" = `buffer[length] = '\\0'` -/")
+            w("def readlinkStores : List String := [" + ", ".join(lean_str(x) for x in kinds) + "]")
+            if "length" not in kinds:
+                raise ExtractFail(where, "i32_store(memory, lengthPointer, length) not found")
+            w("def readlinkTerminatesInGuest : Bool := " + ("true" if "terminator" in kinds else "false"))
+    w("/-- (function, host call, number of resolvePath calls) -/")
     w("def pathCalls : List (String × String × Nat) := [" + ", ".join(f"({lean_str(a)}, {lean_str(b)}, {n})" for a, b, n in calls) + "]")
     w("")
 
     # ------------------------------------------------------------------ clocks
-    body, ln = func_body(c, "wasiClockTimeGet", cpath)
-    where = f"{cpath}:{ln}"
-    end = body.find("#elif")
-    posix = body[:end if end > 0 else len(body)]
-    def clock_switch(posix_text, where, allow_override):
-        """Parse the WHOLE `switch (clockID) { … }` of the POSIX-timers branch: every case must be
-        `nativeClockID = CLOCK_X; [if (precision <cmp> N) { nativeClockID = CLOCK_Y; }] break;` — anything else is
-        an extract failure, so the host clock is a known function of (clockID, precision)."""
-        t = re.sub(r"^[ \t]*#[^\n]*$", "", posix_text, flags=re.M)          # preprocessor lines
-        t = re.sub(r"WASI_TRACE\(\(.*?\)\);", "", t, flags=re.S)
-        t = re.sub(r"\s+", " ", t)
-        # the local that carries the host clock id may have any name: it is the one handed to clock_gettime / clock_getres
-        ms = re.search(r"switch \(clockID\) \{ (.*?) \} if \((clock_gettime|clock_getres)\((\w+), &(\w+)\) != 0\)", t)
-        if not ms:
-            raise ExtractFail(where, "clock switch / host call not recognised")
-        inner = ms.group(1)
-        var = re.escape(ms.group(3))
-        rows, overrides = [], []
-        pos = 0
-        case_re = re.compile(r"case (WASI_CLOCK_\w+): \{ (.*?) break; \} ")
-        while True:
-            mc = case_re.match(inner, pos)
-            if not mc:
-                break
-            cbody = mc.group(2).strip()
-            m1 = re.fullmatch(var + r" = (CLOCK_\w+);", cbody)
-            m2 = re.fullmatch(var + r" = (CLOCK_\w+); if \(precision (>=|>|<=|<|==|!=) (\d+)[uUlL]*\) \{ " + var + r" = (CLOCK_\w+); \}", cbody)
-            if m1:
-                rows.append((mc.group(1), m1.group(1)))
-            elif m2 and allow_override:
-                rows.append((mc.group(1), m2.group(1)))
-                overrides.append((mc.group(1), m2.group(2), int(m2.group(3)), m2.group(4)))
-            else:
-                raise ExtractFail(where, f"clock switch: case {mc.group(1)} has a body the model does not know: {cbody!r}")
-            pos = mc.end()
-        md = re.fullmatch(r"default: \{ return (WASI_ERRNO_\w+); \}", inner[pos:].strip())
-        if len(rows) < 2 or not md:
-            raise ExtractFail(where, f"clock switch: unrecognised tail {inner[pos:][:80]!r}")
-        # no other use of the precision argument anywhere in the function
-        rest = t
-        for o in overrides:
-            rest = rest.replace(f"if (precision {o[1]} {o[2]})", "", 1)
-        if re.search(r"\bprecision\b", re.sub(r"if \(precision (>=|>|<=|<|==|!=) \d+[uUlL]*\)", "", rest) if overrides else rest):
-            raise ExtractFail(where, "clock_time_get uses its `precision` argument in a way the model does not know")
-        return rows, overrides, md.group(1)
+    def clock_dispatch(s, fn, host_call, allow_override):
+        """the whole function: `nativeClockID` is chosen by an if-chain on `clockID == K` (a normalised switch) whose
+        bodies are `v = CLOCK_X; [if (precision <cmp> N) v = CLOCK_Y;]`, then `host_call(v, &ts)`"""
+        where = f"{cpath}:{fn}"
+        params = s.params(fn)
+        body = nodecl(s.body(fn))
+        idx = [i for i, st in enumerate(body) if st[0] == "if" and st[1][0] == "bin" and st[1][1] == "==" and st[1][2] == ("id", "clockID")]
+        if len(idx) != 1:
+            raise ExtractFail(where, "dispatch on clockID not recognised:\n" + s.text(fn)[:2500])
+        chain, dflt = if_chain([body[idx[0]]])
+        rows, overrides, var = [], [], None
+        for c, b in chain:
+            if not (c[0] == "bin" and c[1] == "==" and c[2] == ("id", "clockID") and c[3][0] == "num"):
+                raise ExtractFail(where, f"dispatch condition `{show(c)}`")
+            if not (b and b[0][0] == "expr" and b[0][1][0] == "asg" and b[0][1][1] == "=" and b[0][1][2][0] == "id" and b[0][1][3][0] == "id"):
+                raise ExtractFail(where, f"clock {c[3][1]}: body the model does not know:\n" + "\n".join(cn.show_stmts(b)))
+            v = b[0][1][2]
+            if var is not None and v != var:
+                raise ExtractFail(where, "cases assign different variables")
+            var = v
+            rows.append((c[3][1], b[0][1][3][1]))
+            extra = b[1:]
+            if extra:
+                ok = (allow_override and len(extra) == 1 and extra[0][0] == "if" and extra[0][3] is None and len(extra[0][2]) == 1
+                      and extra[0][2][0][0] == "expr" and extra[0][2][0][1][0] == "asg" and extra[0][2][0][1][2] == var and extra[0][2][0][1][3][0] == "id"
+                      and extra[0][1][0] == "bin" and extra[0][1][1] in ("<", "<=", "==", "!=") and {extra[0][1][2][0], extra[0][1][3][0]} == {"num", "id"})
+                if not ok:
+                    raise ExtractFail(where, f"clock {c[3][1]}: body the model does not know:\n" + "\n".join(cn.show_stmts(b)))
+                cnd = extra[0][1]
+                if cnd[2][0] == "num":      # N <= precision  →  precision ≥ N
+                    lean = f"{cnd[3][1]} {({'<': '>', '<=': '≥', '==': '=', '!=': '≠'})[cnd[1]]} {cnd[2][1]}"
+                    pv = cnd[3][1]
+                else:
+                    lean = f"{cnd[2][1]} {({'<': '<', '<=': '≤', '==': '=', '!=': '≠'})[cnd[1]]} {cnd[3][1]}"
+                    pv = cnd[2][1]
+                if pv != "precision":
+                    raise ExtractFail(where, f"clock {c[3][1]}: condition on `{pv}`")
+                overrides.append((c[3][1], lean, extra[0][2][0][1][3][1]))
+        if not (len(dflt) == 1 and dflt[0][0] == "return" and dflt[0][1][0] == "num") or len(rows) < 2:
+            raise ExtractFail(where, "default of the clock dispatch not recognised")
+        after = body[idx[0] + 1:]
+        if not (after and after[0][0] == "if" and after[0][1][0] == "call" and after[0][1][1] == ("id", host_call) and after[0][1][2][0] == var):
+            raise ExtractFail(where, f"`if ({host_call}(nativeClockID, &ts) != 0) return wasiErrno();` not directly after the dispatch")
+        rest_ids = cn.ids_of(tuple(body[:idx[0]] + after))
+        if "precision" in params and "precision" in rest_ids:
+            raise ExtractFail(where, "`precision` is used outside the clock dispatch")
+        return rows, overrides, dflt[0][1][1]
 
-    rows, overrides, dflt = clock_switch(posix, where, True)
+    rows, overrides, dflt = clock_dispatch(src, "wasiClockTimeGet", "clock_gettime", True)
     w("/-- wasiClockTimeGet (POSIX timers branch): WASI clock id → host clock (the assignment every case starts with) -/")
-    w("def clockTable : List (Nat × String) := [" + ", ".join(f"({int_of(hdef[a], hpath)}, {lean_str(b)})" for a, b in rows) + "]")
-    w(f"def clockDefaultErrno : Nat := {werr[dflt]}")
+    w("def clockTable : List (Nat × String) := [" + ", ".join(f"({a}, {lean_str(b)})" for a, b in rows) + "]")
+    w(f"def clockDefaultErrno : Nat := {dflt}")
     w("/-- a host clock chosen INSTEAD, depending on the `precision` argument (`none`: the case has no such branch;")
     w("    the whole function body was scanned: `precision` occurs nowhere else) -/")
     if overrides:
-        arms = " else ".join(
-            f"if clockID = {int_of(hdef[o[0]], hpath)} ∧ precision {o[1].replace('>=', '≥').replace('<=', '≤').replace('==', '=').replace('!=', '≠')} {o[2]} then some {lean_str(o[3])}"
-            for o in overrides)
+        arms = " else ".join(f"if clockID = {o[0]} ∧ {o[1]} then some {lean_str(o[2])}" for o in overrides)
         w(f"def clockOverride (clockID precision : Nat) : Option String := {arms} else none")
     else:
         w("def clockOverride (clockID precision : Nat) : Option String := none")
-    body_r, ln_r = func_body(c, "wasiClockResGet", cpath)
-    end_r = body_r.find("#else")
-    rows_r, _, dflt_r = clock_switch(body_r[:end_r if end_r > 0 else len(body_r)], f"{cpath}:{ln_r}", False)
+    env5 = src.need("wasiClockTimeGet", "$r = convertTimespec($ts); i64_store($mem, resultPointer, $r); return WASI_ERRNO_SUCCESS;", "conversion and store of the result")
+    rows_r, _, dflt_r = clock_dispatch(src, "wasiClockResGet", "clock_getres", False)
     w("/-- wasiClockResGet: its own copy of the table -/")
-    w("def clockResTable : List (Nat × String) := [" + ", ".join(f"({int_of(hdef[a], hpath)}, {lean_str(b)})" for a, b in rows_r) + "]")
-    w(f"def clockResDefaultErrno : Nat := {werr[dflt_r]}")
-    m = re.search(r"#define NSEC_PER_SEC\s+(.+)", c)
-    w(f"def nsecPerSec : Nat := {int_of(m.group(1), cpath)}")
-    body2, _ = func_body(c, "convertTimespec", cpath)
-    if not re.search(r"return\s+t\.tv_sec \* NSEC_PER_SEC\s*\+\s*t\.tv_nsec\s*;", body2):
-        raise ExtractFail(cpath, "convertTimespec not recognised")
+    w("def clockResTable : List (Nat × String) := [" + ", ".join(f"({a}, {lean_str(b)})" for a, b in rows_r) + "]")
+    w(f"def clockResDefaultErrno : Nat := {dflt_r}")
+
+    def conv(s, fn, sub):
+        e = s.find(fn, f"return $t.tv_sec * $A + $t.{sub} * $B;") or s.find(fn, f"return $t.tv_sec * $A + $t.{sub};")
+        if e is None:
+            raise ExtractFail(f"{cpath}:{fn}", "seconds·A + sub-second·B not recognised:\n" + s.text(fn))
+        return num(e["A"], fn, "scale"), (num(e["B"], fn, "scale") if "B" in e else 1)
+    ts_a, ts_b = conv(src, "convertTimespec", "tv_nsec")
+    tv_a, tv_b = conv(src, "convertTimeval", "tv_usec")
+    w(f"def nsecPerSec : Nat := {N.values.get('NSEC_PER_SEC', ts_a)}")
+    w("/-- convertTimespec = tv_sec · timespecSecScale + tv_nsec · timespecNsecScale -/")
+    w(f"def timespecSecScale : Nat := {ts_a}")
+    w(f"def timespecNsecScale : Nat := {ts_b}")
+    w("/-- convertTimeval = tv_sec · timevalSecScale + tv_usec · timevalUsecScale -/")
+    w(f"def timevalSecScale : Nat := {tv_a}")
+    w(f"def timevalUsecScale : Nat := {tv_b}")
+    # the fallback-timer configuration (-DWASI_FALLBACK_TIMERS_ENABLED=1): gettimeofday / getrusage
+    fbody = nodecl(fb.body("wasiClockTimeGet"))
+    idx = [i for i, st in enumerate(fbody) if st[0] == "if" and st[1][0] == "bin" and st[1][1] == "==" and st[1][2] == ("id", "clockID")]
+    if len(idx) != 1:
+        raise ExtractFail(cpath + ":wasiClockTimeGet[fallback]", "dispatch on clockID not recognised:\n" + fb.text("wasiClockTimeGet")[:2500])
+    chain, fdflt = if_chain([fbody[idx[0]]])
+    frows = []
+    for c, b in chain:
+        b = nodecl(b)
+        cid = num(c[3], "fallback clock", "clock id")
+        if cn.match_seq(fb.pattern("if (gettimeofday(&$tv, NULL) != 0) { return wasiErrno(); } $r = convertTimeval($tv);"), b, {}) is not None:
+            frows.append((cid, "gettimeofday"))
+        elif cn.match_seq(fb.pattern("$ret = 0; $ret = getrusage(RUSAGE_SELF, &$ru); if ($ret != 0) { return wasiErrno(); } "
+                                      "addTimevals(&$ru.ru_utime, &$ru.ru_stime, &$ru.ru_utime); $r = convertTimeval($ru.ru_utime);"), b, {}) is not None:
+            frows.append((cid, "getrusage"))
+        else:
+            raise ExtractFail(cpath + ":wasiClockTimeGet[fallback]", f"clock {cid}: body the model does not know:\n" + "\n".join(cn.show_stmts(b)))
+    if not (len(fdflt) == 1 and fdflt[0][0] == "return" and fdflt[0][1][0] == "num"):
+        raise ExtractFail(cpath + ":wasiClockTimeGet[fallback]", "default not recognised")
+    if conv(fb, "convertTimeval", "tv_usec") != (tv_a, tv_b):
+        raise ExtractFail(cpath, "convertTimeval differs between the two clock configurations")
+    w("/-- clock_time_get built with -DWASI_FALLBACK_TIMERS_ENABLED=1: WASI clock id → host call (converted by convertTimeval) -/")
+    w("def fallbackClockTable : List (Nat × String) := [" + ", ".join(f"({a}, {lean_str(b)})" for a, b in frows) + "]")
+    w(f"def fallbackClockDefaultErrno : Nat := {fdflt[0][1][1]}")
     w("")
 
     # ------------------------------------------------------------------ random_get
-    body, ln = func_body(c, "wasiRandomGet", cpath)
-    where = f"{cpath}:{ln}"
-    flat = re.sub(r"\s+", " ", body)
-    m_old = re.search(r"result = getentropy\( bufferStart, bufferLength \); if \(([^{]*?)\) \{", flat)
-    m_new = re.search(r"U32 offset = 0; result = 0; while \(result == 0 && offset < bufferLength\) \{ const U32 remaining = bufferLength - offset; "
-                      r"const U32 chunkLength = remaining > (\d+) \? (\d+) : remaining; result = getentropy\(bufferStart \+ offset, chunkLength\); "
-                      r"offset \+= chunkLength; \} \} if \(result == 0\) \{ return WASI_ERRNO_SUCCESS; \} if \(errno != ENOSYS\) \{ return wasiErrno\(\); \}",
-                      re.sub(r"WASI_TRACE\(\(.*?\)\); ", "", flat))
-    if m_new and m_new.group(1) == m_new.group(2):
+    where = cpath + ":wasiRandomGet"
+    e_new = src.find("wasiRandomGet", RANDOM_CHUNKED)
+    e_old = src.find("wasiRandomGet", RANDOM_SINGLE)
+    if e_new is not None and e_old is None and len(calls_of(src.body("wasiRandomGet"), "getentropy")) == 1:
         w("/-- random_get: getentropy is called for chunks of at most this many bytes; success returns at once;")
         w("    the /dev/random and random() fallbacks are reached only when errno == ENOSYS -/")
         w("def entropyChunked : Bool := true")
-        w(f"def entropyChunk : Nat := {m_new.group(1)}")
+        w(f"def entropyChunk : Nat := {num(e_new['N'], where, 'chunk size')}")
         w('def entropyResultTest : String := "result == 0 -> SUCCESS; errno != ENOSYS -> wasiErrno()"')
-    elif m_old and re.sub(r"\s+", " ", m_old.group(1).strip()) == "result != 0 && result != ENOSYS":
+        bs = e_new["bs"]
+    elif e_old is not None and e_new is None and len(calls_of(src.body("wasiRandomGet"), "getentropy")) == 1:
         w("/-- random_get: ONE getentropy call for the whole buffer; its return value is compared with ENOSYS;")
         w("    after a successful call control falls through to the srandom(time)/random() fallback -/")
         w("def entropyChunked : Bool := false")
         w("def entropyChunk : Nat := 0")
         w('def entropyResultTest : String := "result != 0 && result != ENOSYS"')
+        bs = e_old["bs"]
     else:
-        raise ExtractFail(where, "random_get: neither the single-call nor the chunked getentropy shape recognised")
-    if not re.search(r'open\("/dev/random", O_RDONLY\)', flat) or not re.search(r"srandom\(time\(NULL\)\)", flat):
-        raise ExtractFail(where, "random_get: /dev/random or random() fallback not recognised")
+        raise ExtractFail(where, "neither the single-call nor the chunked getentropy shape recognised:\n" + src.text("wasiRandomGet")[:2500])
+    src.need("wasiRandomGet", f"{show(bs)} = $mem->data + bufferPointer;", "destination pointer")
+    if not calls_of(src.body("wasiRandomGet"), "open") or not calls_of(src.body("wasiRandomGet"), "srandom"):
+        raise ExtractFail(where, "/dev/random or random() fallback not recognised")
     w("")
 
     # ------------------------------------------------------------------ thread-spawn
-    body, ln = func_body(c, "wasi__threadX2Dspawn", cpath)
-    where = f"{cpath}:{ln}"
-    m0 = re.search(r"static U32 nextThreadID\s*=\s*(\d+)\s*;", body)
-    m1 = re.search(r"threadID\s*=\s*atomic_add_U32\s*\(\s*&nextThreadID\s*,\s*(\d+)\s*\)\s*;", body)
-    # export lookup: the whole loop, the comparison inside it and the `break` on the first match
-    flat = re.sub(r"\s+", " ", re.sub(r"WASI_TRACE\(\(.*?\)\);", "", body, flags=re.S))
-    loop = re.search(r"for \(; funcExport->func != NULL; funcExport\+\+\) \{ if \((.*?)\) \{ startFunc = funcExport->func; break; \} \}", flat)
-    m3 = re.search(r"if\s*\(\s*startFunc\s*==\s*NULL\s*\)\s*\{[^}]*?return\s+(-?\d+)\s*;", body, flags=re.S)
-    if not (m0 and m1 and loop and m3):
-        raise ExtractFail(where, "thread-spawn: counter / atomic add / export lookup loop / missing-export return not recognised")
-    cond = loop.group(1).strip()
-    me = re.fullmatch(r'strcmp\s*\(\s*funcExport->name\s*,\s*"(\w+)"\s*\)\s*==\s*0', cond)
-    mp = re.fullmatch(r'strncmp\s*\(\s*funcExport->name\s*,\s*"(\w+)"\s*,\s*(?:strlen\s*\(\s*"(\w+)"\s*\)|(\d+))\s*\)\s*==\s*0', cond)
-    w(f"def firstThreadID : Nat := {m0.group(1)}")
-    w(f"def threadIDIncrement : Nat := {m1.group(1)}")
-    w(f"def threadIDAtomic : Bool := true   -- atomic_add_U32(&nextThreadID, ..)")
+    fn = "wasi__threadX2Dspawn"
+    where = f"{cpath}:{fn}"
+    body = nodecl(src.body(fn))
+    e0 = src.need(fn, "nextThreadID = $N;", "initial value of the static counter")
+    lp = src.find(fn, "while ($fe->func != NULL) { if ($M) { $sf = $fe->func; break; } $fe += 1; }")
+    if lp is None:
+        raise ExtractFail(where, "export lookup loop not recognised:\n" + src.text(fn)[:2500])
+    src.need(fn, f"{show(lp['fe'])} = instance->funcExports;", "start of the export table")
+    e3 = src.need(fn, f"if ({show(lp['sf'])} == NULL) {{ return $R; }}", "missing-export return")
+    blk = src.need(fn, "$blk = calloc(1, sizeof(ThreadStartArg));", "allocation of the ThreadStartArg block")["blk"]
+    M = lp["M"]
+    fe_name = ("mem", "->", lp["fe"], "name")
+    w(f"def firstThreadID : Nat := {num(e0['N'], where, 'first id')}")
+    ev = []
+    inc = None
+    idvar = None
+
+    def visit_expr(e, after_create):
+        nonlocal inc, idvar
+        if e[0] == "asg" and e[3][0] == "call" and e[3][1] == ("id", "atomic_add_U32"):
+            a = e[3][2]
+            if not (len(a) == 2 and a[0] == ("un", "&", ("id", "nextThreadID")) and a[1][0] == "num"):
+                raise ExtractFail(where, f"fetch-and-add `{show(e)}`")
+            inc = a[1][1]
+            if e[2][0] == "id":
+                idvar = e[2]
+                ev.append("fetchAdd:local")
+            elif e[2] == ("mem", "->", blk, "threadID"):
+                ev.append("fetchAdd:block")
+            else:
+                raise ExtractFail(where, f"fetch-and-add result stored in `{show(e[2])}`")
+            return
+        if e[0] == "asg" and e[2] == ("mem", "->", blk, "instance") and e[3][0] == "call" and show(e[3][1]) == "instance->newChild":
+            ev.append("newChild")
+            return
+        if e[0] == "asg" and e[2] == ("mem", "->", blk, "threadID") and idvar is not None and e[3] == idvar:
+            ev.append("store:id")
+            return
+        if e[0] == "asg" and e[2][0] == "mem" and e[2][2] == blk and not after_create and blk not in [x for x in all_exprs(e[3])]:
+            return                                     # filling the other fields of the block
+        for x in all_exprs(e):
+            if x[0] == "mem" and x[2] == blk and "create" in ev:
+                ev.append("readBlockAfterCreate")
+
+    def visit(stmts):
+        for s in stmts:
+            if s[0] == "expr":
+                visit_expr(s[1], "create" in ev)
+            elif s[0] == "if":
+                cr = [c for c in all_exprs(s[1]) if c[0] == "call" and c[1] == ("id", "WASM_THREAD_CREATE")]
+                if cr:
+                    a = cr[0][2]
+                    if not (len(a) == 3 and a[1] == ("id", "wasiThreadSpawn") and a[2] == blk):
+                        raise ExtractFail(where, f"thread creation `{show(cr[0])}`")
+                    ev.append("create")
+                else:
+                    visit_expr(s[1], "create" in ev)
+                visit(s[2])
+                if s[3]:
+                    visit(s[3])
+            elif s[0] == "while":
+                visit(s[2])
+            elif s[0] == "return" and s[1] is not None and "create" in ev:
+                if idvar is not None and s[1] == idvar:
+                    ev.append("return:local")
+                elif s[1] == ("mem", "->", blk, "threadID"):
+                    ev.append("return:block")
+                elif s[1][0] == "num":
+                    pass
+                else:
+                    raise ExtractFail(where, f"return value `{show(s[1])}`")
+    visit(body)
+    if inc is None or "create" not in ev or not any(x.startswith("return") for x in ev):
+        raise ExtractFail(where, f"event sequence not recognised: {ev}\n" + src.text(fn)[:2500])
+    w(f"def threadIDIncrement : Nat := {inc}")
+    w("def threadIDAtomic : Bool := true   -- atomic_add_U32(&nextThreadID, ..)")
     w("/-- the comparison of the export lookup loop `for (; funcExport->func != NULL; funcExport++)`, which")
-    w(f"    takes the FIRST export for which it holds (`break`): `{cond}` -/")
-    if me:
-        w(f"def threadStartExport : String := {lean_str(me.group(1))}")
+    w(f"    takes the FIRST export for which it holds (`break`): `{show(M)}` -/")
+    if M[0] == "bin" and M[1] == "==" and M[3] == ("num", 0) and M[2][0] == "call" and M[2][1] == ("id", "strcmp") and M[2][2][0] == fe_name and M[2][2][1][0] == "str":
+        w(f"def threadStartExport : String := {lean_str(M[2][2][1][1][1:-1])}")
         w("def exportNameMatches (name : String) : Bool := name == threadStartExport")
-    elif mp:
-        n = len(mp.group(2)) if mp.group(2) is not None else int(mp.group(3))
-        w(f"def threadStartExport : String := {lean_str(mp.group(1))}")
+    elif M[0] == "bin" and M[1] == "==" and M[3] == ("num", 0) and M[2][0] == "call" and M[2][1] == ("id", "strncmp") and M[2][2][0] == fe_name \
+            and M[2][2][1][0] == "str" and M[2][2][2][0] == "num":
+        n = M[2][2][2][1]
+        w(f"def threadStartExport : String := {lean_str(M[2][2][1][1][1:-1])}")
         w(f"/-- strncmp over the first {n} bytes: equal iff both strings agree on their first {n} bytes (or end, equal, before) -/")
         w(f"def exportNameMatches (name : String) : Bool := (name.toList.take {n}) == (threadStartExport.toList.take {n})")
     else:
-        raise ExtractFail(where, f"thread-spawn: export comparison not understood: {cond!r}")
-    ev = []
-    for mm in re.finditer(r"(threadID = atomic_add_U32\(&nextThreadID, \d+\);)|(threadStartArg->threadID = atomic_add_U32\(&nextThreadID, \d+\);)|(threadStartArg->instance = instance->newChild\(instance\);)|(threadStartArg->threadID = threadID;)|(WASM_THREAD_CREATE\(&thread, wasiThreadSpawn, threadStartArg\))|(return threadID;)|(return threadStartArg->threadID;)|(threadStartArg->\w+)", flat):
-        g = mm.groups()
-        name = ["fetchAdd:local", "fetchAdd:block", "newChild", "store:id", "create", "return:local", "return:block", "block"][[i for i, x in enumerate(g) if x][0]]
-        if name == "block":
-            if "create" not in ev:
-                continue                      # filling the block before the thread exists
-            name = "readBlockAfterCreate"
-        ev.append(name)
+        raise ExtractFail(where, f"export comparison not understood: `{show(M)}`")
     w("/-- thread-spawn: the id-relevant events of the function in source order (traces removed): where the")
     w("    fetch-and-add result goes, newChild, thread creation, any access to the ThreadStartArg block after")
     w("    creation (the new thread frees that block), what is returned -/")
     w("def spawnEvents : List String := [" + ", ".join(lean_str(x) for x in ev) + "]")
-    if not any(e.startswith("fetchAdd") for e in ev) or "create" not in ev or not any(e.startswith("return") for e in ev):
-        raise ExtractFail(where, f"thread-spawn: event sequence not recognised: {ev}")
     w("def spawnReturnsLocalId : Bool := " + ("true" if ("fetchAdd:local" in ev and "return:local" in ev and "readBlockAfterCreate" not in ev and "return:block" not in ev) else "false"))
-    w(f"def spawnMissingExportResult : Int := {m3.group(1)}")
+    w(f"def spawnMissingExportResult : Int := {num(e3['R'], where, 'missing-export result')}")
+    # the thread body: frees its block, one start call
+    match_whole(src, "wasiThreadSpawn", r"""
+        $a = (ThreadStartArg*) arg; $inst = $a->instance; $tid = $a->threadID; $sarg = $a->startArg; $f = $a->startFunc;
+        free($a); $f($inst, $tid, $sarg); return NULL;""", "thread entry (copy fields, free the block, ONE start call)")
     w("")
 
     # ------------------------------------------------------------------ args / environ
-    flat_c = re.sub(r"\s+", " ", c)
-    if re.search(r"for \(; argvIndex < wasi\.argc; argvIndex\+\+\) \{ argvBufSize \+= strlen\(wasi\.argv\[argvIndex\]\) \+ \d+; \}", flat_c):
-        use_argc = True
-    elif re.search(r"while \(wasi\.argv\[argvIndex\] != NULL\) \{ argvBufSize \+= strlen\(wasi\.argv\[argvIndex\]\) \+ \d+; argvIndex\+\+; \}", flat_c):
-        use_argc = False
-    else:
-        raise ExtractFail(cpath, "args_sizes_get: size loop not recognised")
+    def add_extra(e, vec, i, where):
+        """`strlen(vec[i]) + K`"""
+        base = ("call", ("id", "strlen"), (("idx", vec, i),))
+        if e == base:
+            return 0
+        if e[0] == "bin" and e[1] == "+" and e[2] == base and e[3][0] == "num":
+            return e[3][1]
+        raise ExtractFail(where, f"size accounting `{show(e)}`")
+
+    wasi_argv, wasi_envp = ("mem", ".", ("id", "wasi"), "argv"), ("mem", ".", ("id", "wasi"), "envp")
+    for sp in ("wasi_snapshot_preview1__", "wasi_unstable__"):
+        fl, e = match_whole(src, sp + "args_sizes_get", ARGS_SIZES, "size loop and the two stores")
+        lc = e["LOOPC"]
+        if lc == ("bin", "<", e["i"], ("mem", ".", ("id", "wasi"), "argc")):
+            use_argc = True
+        elif lc == ("idx", wasi_argv, e["i"]):
+            use_argc = False
+        else:
+            raise ExtractFail(cpath + ":args_sizes_get", f"loop condition `{show(lc)}`")
+        arg_extra = add_extra(e["ADD"], wasi_argv, e["i"], cpath + ":args_sizes_get")
+        fl, e = match_whole(src, sp + "environ_sizes_get", ENV_SIZES, "size loop and the two stores")
+        env_extra = add_extra(e["ADD"], wasi_envp, e["i"], cpath + ":environ_sizes_get")
+        if sp == "wasi_snapshot_preview1__":
+            first = (use_argc, arg_extra, env_extra)
+        elif first != (use_argc, arg_extra, env_extra):
+            raise ExtractFail(cpath, "the two ABI name spaces of args/environ_sizes_get differ")
+    use_argc, arg_extra, env_extra = first
     w("/-- args_sizes_get sums over `argvIndex < wasi.argc` (true) or until `wasi.argv[argvIndex] == NULL` (false) -/")
     w("def argsSizesLoopUsesArgc : Bool := " + ("true" if use_argc else "false"))
-    if not re.search(r"for \(; index < wasi\.argc; index\+\+\) \{ char\* arg = wasi\.argv\[index\];", flat_c):
-        raise ExtractFail(cpath, "args_get: loop `for (; index < wasi.argc; index++)` not recognised")
-    m = re.search(r"argvBufSize\s*\+=\s*strlen\s*\(\s*wasi\.argv\[argvIndex\]\s*\)\s*\+\s*(\d+)\s*;", c)
-    m2 = re.search(r"envpBufSize\s*\+=\s*strlen\s*\(\s*wasi\.envp\[envpIndex\]\s*\)\s*\+\s*(\d+)\s*;", c)
-    if not (m and m2):
-        raise ExtractFail(cpath, "args/environ size accounting not recognised")
-    w(f"def argSizeExtra : Nat := {m.group(1)}      -- strlen(argv[i]) + {m.group(1)}")
-    w(f"def envSizeExtra : Nat := {m2.group(1)}")
-    for fn, ptr, nm in (("wasiArgsGet", "argvPointer", "arg"), ("wasiEnvironGet", "envpPointer", "env")):
-        body, ln = func_body(c, fn, cpath)
-        a = re.search(r"size_t length\s*=\s*strlen\s*\(\s*\w+\s*\)\s*\+\s*(\d+)\s*;", body)
-        b = re.search(r"%s\s*\+\s*index\s*\*\s*sizeof\s*\(\s*(\w+)\s*\)" % ptr, body)
-        if not (a and b):
-            raise ExtractFail(f"{cpath}:{ln}", f"{fn}: copy length / pointer stride not recognised")
-        stride = {"U32": 4, "U64": 8, "U16": 2, "U8": 1}.get(b.group(1))
+    w(f"def argSizeExtra : Nat := {arg_extra}      -- strlen(argv[i]) + {arg_extra}")
+    w(f"def envSizeExtra : Nat := {env_extra}")
+    for fn, ptr, bufp, vec, nm in (("wasiArgsGet", "argvPointer", "argvBufPointer", wasi_argv, "arg"), ("wasiEnvironGet", "envpPointer", "envpBufPointer", wasi_envp, "env")):
+        where = f"{cpath}:{fn}"
+        fl, e = match_whole(src, fn, VEC_GET, "copy loop")
+        if e["VEC"] != vec or e["PTR"] != ("id", ptr) or e["BUF"] != ("id", bufp):
+            raise ExtractFail(where, f"vector / pointer array / buffer: `{show(e['VEC'])}`, `{show(e['PTR'])}`, `{show(e['BUF'])}`")
+        lc = e["LOOPC"]
+        if nm == "arg" and lc != ("bin", "<", e["i"], ("mem", ".", ("id", "wasi"), "argc")):
+            raise ExtractFail(where, f"loop condition `{show(lc)}` (the model copies the first wasi.argc entries)")
+        if nm == "env" and lc != ("idx", wasi_envp, e["i"]):
+            raise ExtractFail(where, f"loop condition `{show(lc)}` (the model copies up to the NULL entry)")
+        ln = e["LEN"]
+        base = ("call", ("id", "strlen"), (e["a"],))
+        if ln == base:
+            extra = 0
+        elif ln[0] == "bin" and ln[1] == "+" and ln[2] == base and ln[3][0] == "num":
+            extra = ln[3][1]
+        else:
+            raise ExtractFail(where, f"copy length `{show(ln)}`")
+        st = e["STRIDE"]
+        stride = {"U32": 4, "U64": 8, "U16": 2, "U8": 1}.get(st[1]) if st[0] == "sizeof" else (st[1] if st[0] == "num" else None)
         if stride is None:
-            raise ExtractFail(f"{cpath}:{ln}", f"{fn}: unknown stride type {b.group(1)}")
-        w(f"def {nm}CopyExtra : Nat := {a.group(1)}")
+            raise ExtractFail(where, f"pointer stride `{show(st)}`")
+        w(f"def {nm}CopyExtra : Nat := {extra}")
         w(f"def {nm}PtrStride : Nat := {stride}")
-    w("")
     w("end W2c2Verif.Gen.WasiPath")
     return "\n".join(out) + "\n"
 
